@@ -18,6 +18,8 @@ import (
 	"os"
 	"os/exec"
 	"path/filepath"
+	"runtime/debug"
+	"runtime/pprof"
 	"sort"
 	"strconv"
 	"strings"
@@ -60,6 +62,7 @@ type Oblig struct {
 	Roots    []string           `json:"roots"`
 	Unwind   int                `json:"unwind"`
 	Native   bool               `json:"native"` // harness can be replayed natively (no engine-only models)
+	Sched    bool               `json:"sched"`  // schedule-dependent: a native run is best-effort (the Go scheduler picks the interleaving)
 	Renames  []Rename           `json:"renames"`
 	Rewrites []Rewrite          `json:"rewrites"`
 	Tiers    map[string]TierCfg `json:"tiers"`
@@ -348,6 +351,12 @@ func tierOf(o *Oblig, tier string) TierCfg {
 }
 
 func cmdOblig(args []string) {
+	debug.SetGCPercent(400)
+	if p := os.Getenv("SYMGO_CPUPROFILE"); p != "" {
+		f, _ := os.Create(p)
+		pprof.StartCPUProfile(f)
+		defer pprof.StopCPUProfile()
+	}
 	fs := flag.NewFlagSet("oblig", flag.ExitOnError)
 	tier := fs.String("tier", "quick", "")
 	out := fs.String("out", "", "")
@@ -374,6 +383,7 @@ func cmdOblig(args []string) {
 		os.Stdout.Write(b)
 		fmt.Println()
 	}
+	pprof.StopCPUProfile()
 	switch res.Status {
 	case "ok":
 		os.Exit(0)
@@ -465,11 +475,13 @@ func runOblig(o *Oblig, tier string) *ObligResult {
 		}
 		path := writeReplay(o, tier, tc, v)
 		res.ReplayFiles = append(res.ReplayFiles, path)
-		if o.Native {
-			ok, outp := nativeReplay(o, path)
+		if o.Native && res.NativeReplays < 2 {
+			ok, outp := nativeReplay(o, path, v.Kind == "deadlock")
 			res.NativeReplays++
 			if ok {
 				v.Replayed += "; native go test: reproduced"
+			} else if o.Sched {
+				v.Replayed += "; native go test: not reproduced under the Go scheduler's interleaving (schedule-dependent; the engine replay with the recorded schedule is authoritative)"
 			} else {
 				v.Replayed += "; native go test: NOT reproduced: " + lastLines(outp, 6)
 				res.Inconclusive = append(res.Inconclusive, "counterexample for "+v.Label+" did not reproduce natively")
@@ -537,7 +549,7 @@ func writeReplay(o *Oblig, tier string, tc TierCfg, v *symgo.Violation) string {
 }
 
 // nativeReplay runs the harness natively (go test -overlay) with the replay vector.
-func nativeReplay(o *Oblig, replayPath string) (bool, string) {
+func nativeReplay(o *Oblig, replayPath string, deadlock bool) (bool, string) {
 	ov, _ := buildOverlay(o, true)
 	tmp, err := os.MkdirTemp("", "vcheck-replay-")
 	if err != nil {
@@ -555,7 +567,11 @@ func nativeReplay(o *Oblig, replayPath string) (bool, string) {
 	ovj, _ := json.Marshal(map[string]interface{}{"Replace": repl})
 	ovp := filepath.Join(tmp, "overlay.json")
 	os.WriteFile(ovp, ovj, 0o644)
-	cmd := exec.Command("go", "test", "-tags=verif", "-vet=off", "-count=1", "-run", "^TestVerifReplay$", "-overlay", ovp, "-timeout", "300s", "-v", pkgPathOf(o))
+	to := "180s"
+	if deadlock {
+		to = "15s"
+	}
+	cmd := exec.Command("go", "test", "-tags=verif", "-vet=off", "-count=1", "-run", "^TestVerifReplay$", "-overlay", ovp, "-timeout", to, "-v", pkgPathOf(o))
 	cmd.Dir = repoDir
 	cmd.Env = append(os.Environ(), "GOFLAGS=-mod=mod", "GOPROXY=off", "GOSUMDB=off", "GOTOOLCHAIN=local", "VERIF_REPLAY="+replayPath)
 	outp, _ := cmd.CombinedOutput()
@@ -602,7 +618,7 @@ func cmdReplay(args []string) {
 		fmt.Printf("  %s %s: %s\n", v.Kind, v.Label, v.Msg)
 	}
 	if o.Native {
-		ok, outp := nativeReplay(o, args[0])
+		ok, outp := nativeReplay(o, args[0], rf.Kind == "deadlock")
 		fmt.Printf("native replay (go test -overlay): reproduced=%v\n%s\n", ok, lastLines(outp, 12))
 		reproduced = reproduced && ok
 	}
